@@ -61,7 +61,7 @@ def mc_cfg(emit):
 
 # ------------------------------------------------------------------ driver
 SCALARS = [17, "text", None, 2.5, True, 0, "", -3]
-OK_KINDS = ["okf", "okc", "okn"]
+OK_KINDS = ["okf", "okc", "okn", "rebind"]
 RAISE_KINDS = ["raise", "cfgerr"]
 NOLOAD_KINDS = ["nomodule", "missing", "notcallable"]
 
@@ -87,6 +87,8 @@ def render(tree, path, rnd, ids, scalars):
             name = "vp_no_such_module_%d.thing" % ident
         elif kind == "okn":
             name = "vp.fx_translate.holder.inner.okn_%d" % ident
+        elif kind == "rebind":
+            name = "vp.fx_translate.rebind_%d" % ident
         else:
             name = "vp.fx_translate.%s_%d" % (kind, ident)
         items = [(key, render(t, path + [["k", key]], rnd, ids, scalars)) for key, t in tree[2]]
@@ -155,8 +157,14 @@ def execute(case):
         if run_no:
             events.append({"e": "Again"})
         del fx.LOG[:]
+        # names are resolved anew by every translation: the rebindable factories are replaced
+        for pk, (ident, kind) in ids.items():
+            if kind == "rebind":
+                fx.rebind(ident, run_no)
+        root_typed = case["tree"][0] == "T"
+        extra = {"vp_marker": "mk"} if (root_typed and case["seed"] % 3 == 0) else {}
         try:
-            out = Translator().translate_hierarchy(concrete)
+            out = Translator().translate_hierarchy(concrete, **extra)
         except ConfigurationError as e:
             end = {"e": "End", "state": "cfgerr", "where": tokenize_where(e.where)}
         except BaseException as e:  # noqa
@@ -164,8 +172,15 @@ def execute(case):
             exc = type(e).__name__
         else:
             end = {"e": "End", "state": "ok", "val": encode(out, by_id, scalars)}
-        for ident, args, kwargs in fx.LOG:
-            events.append({"e": "Call", "n": by_id.get(ident, [["x", "?"]]), "args": [encode(a, by_id, scalars) for a in args], "kw": [[k, encode(v, by_id, scalars)] for k, v in kwargs.items()]})
+        for entry in fx.LOG:
+            ident, args, kwargs = entry[:3]
+            n = by_id.get(ident, [["x", "?"]])
+            if len(entry) > 3 and entry[3] != run_no:
+                n = [["x", "stale factory of an earlier translation"]]
+            kwargs = dict(kwargs)
+            if n == [] and kwargs.get("vp_marker") == "mk" and extra:
+                kwargs.pop("vp_marker")  # keyword arguments given to the call itself reach the root only
+            events.append({"e": "Call", "n": n, "args": [encode(a, by_id, scalars) for a in args], "kw": [[k, encode(v, by_id, scalars)] for k, v in kwargs.items()]})
         del fx.LOG[:]
         events.append(end)
     return {"tree": case["tree"], "seed": case["seed"], "events": events, "exc": exc, "kinds": {pk: kind for pk, (i, kind) in ids.items()}}
